@@ -16,22 +16,23 @@ const MORE: u16 = 0x0020;
 const XY: u16 = 0x0002;
 const INSTR: u16 = 0x0100;
 const HAVE_SCALE: u16 = 0x0008;
+const TWO_BY_TWO: u16 = 0x0080;
 
 /// A two-component composite whose WE_HAVE_INSTRUCTIONS bit may sit on either component (the
 /// glyf chapter defines the flag per component and the reader accepts it on any): the record
 /// written is header, both components, and - iff any component carries the flag - the
 /// instruction length and bytes (`c15_composite_glyph_read` is the reading direction).
-// @bound composite glyph with 2 components (byte xy arguments; the second with a uniform scale), WE_HAVE_INSTRUCTIONS symbolic on each, glyph indices, arguments, scale, bounding box and 3 instruction bytes symbolic
+// @bound composite glyph with 2 components (byte xy arguments; the second with a 2x2 transform), WE_HAVE_INSTRUCTIONS symbolic on each, glyph indices, arguments, the four transform entries, bounding box and 3 instruction bytes symbolic
 #[kani::proof]
 #[kani::unwind(8)]
 fn c15_composite_glyph_write() {
     let i0: bool = kani::any();
     let i1: bool = kani::any();
     let f0 = MORE | XY | if i0 { INSTR } else { 0 };
-    let f1 = XY | HAVE_SCALE | if i1 { INSTR } else { 0 };
+    let f1 = XY | TWO_BY_TWO | if i1 { INSTR } else { 0 };
     let (g0, g1): (u16, u16) = (kani::any(), kani::any());
     let (a, b, c, d): (i8, i8, i8, i8) = (kani::any(), kani::any(), kani::any(), kani::any());
-    let scale: i16 = kani::any();
+    let m: [i16; 4] = kani::any(); // xscale, scale01, scale10, yscale in file order
     let ins: [u8; 3] = kani::any();
     let bbox = BoundingBox { x_min: kani::any(), y_min: kani::any(), x_max: kani::any(), y_max: kani::any() };
     let glyph = CompositeGlyph {
@@ -49,7 +50,10 @@ fn c15_composite_glyph_write() {
                 glyph_index: g1,
                 argument1: CompositeGlyphArgument::I8(c),
                 argument2: CompositeGlyphArgument::I8(d),
-                scale: Some(CompositeGlyphScale::Scale(F2Dot14::from_raw(scale))),
+                scale: Some(CompositeGlyphScale::Matrix([
+                    [F2Dot14::from_raw(m[0]), F2Dot14::from_raw(m[1])],
+                    [F2Dot14::from_raw(m[2]), F2Dot14::from_raw(m[3])],
+                ])),
             },
         ],
         instructions: if i0 || i1 { &ins[..] } else { &[] },
@@ -58,15 +62,16 @@ fn c15_composite_glyph_write() {
     let mut out = WriteBuffer::new();
     CompositeGlyph::write(&mut out, glyph).unwrap();
     let bytes = out.bytes();
-    let body = 10 + 6 + 8;
+    let body = 10 + 6 + 14;
     assert!(bytes.len() == if i0 || i1 { body + 2 + 3 } else { body }, "length of the written record");
     assert!(be16(bytes, 0) == 0xFFFF);
     assert!(be16(bytes, 2) == bbox.x_min as u16 && be16(bytes, 8) == bbox.y_max as u16);
     assert!(be16(bytes, 10) == f0 && be16(bytes, 12) == g0 && bytes[14] == a as u8 && bytes[15] == b as u8);
     assert!(be16(bytes, 16) == f1 && be16(bytes, 18) == g1 && bytes[20] == c as u8 && bytes[21] == d as u8);
-    assert!(be16(bytes, 22) == scale as u16);
+    assert!(be16(bytes, 22) == m[0] as u16 && be16(bytes, 24) == m[1] as u16, "2x2 transform: xscale, scale01");
+    assert!(be16(bytes, 26) == m[2] as u16 && be16(bytes, 28) == m[3] as u16, "2x2 transform: scale10, yscale");
     if i0 || i1 {
-        assert!(be16(bytes, 24) == 3 && bytes[26] == ins[0] && bytes[28] == ins[2], "instructions written");
+        assert!(be16(bytes, 30) == 3 && bytes[32] == ins[0] && bytes[34] == ins[2], "instructions written");
     }
     kani::cover!(i0 && !i1, "instructions flagged on the first component only");
     kani::cover!(!i0 && i1, "instructions flagged on the last component only");
@@ -77,24 +82,31 @@ fn c15_composite_glyph_write() {
 /// Reading direction: a two-component record whose WE_HAVE_INSTRUCTIONS bit sits on either
 /// component is followed by the instruction length and bytes, which the reader must consume
 /// and return; without the bit on any component there are none.
-// @bound composite record with 2 components (byte xy arguments; the second with a uniform scale), WE_HAVE_INSTRUCTIONS symbolic on each, all other bytes symbolic, 2 instruction bytes
+// @bound composite record with 2 components (byte xy arguments; the second with a 2x2 transform), WE_HAVE_INSTRUCTIONS symbolic on each, all other bytes symbolic, 2 instruction bytes
 #[kani::proof]
 #[kani::unwind(8)]
 fn c15_composite_glyph_read() {
     let i0: bool = kani::any();
     let i1: bool = kani::any();
     let f0 = MORE | XY | if i0 { INSTR } else { 0 };
-    let f1 = XY | HAVE_SCALE | if i1 { INSTR } else { 0 };
-    let mut buf: [u8; 8 + 6 + 8 + 2 + 2] = kani::any();
+    let f1 = XY | TWO_BY_TWO | if i1 { INSTR } else { 0 };
+    let mut buf: [u8; 8 + 6 + 14 + 2 + 2] = kani::any();
     put16(&mut buf, 8, f0);
     put16(&mut buf, 14, f1);
-    put16(&mut buf, 22, 2); // instruction length, present only when flagged
+    put16(&mut buf, 28, 2); // instruction length, present only when flagged
     let glyph = ReadScope::new(&buf).read::<CompositeGlyph<'_>>().unwrap();
     assert!(glyph.glyphs.len() == 2);
     assert!(glyph.glyphs[0].glyph_index == be16(&buf, 10) && glyph.glyphs[1].glyph_index == be16(&buf, 16));
     assert!(glyph.glyphs[0].flags.bits() == f0 && glyph.glyphs[1].flags.bits() == f1);
+    match glyph.glyphs[1].scale {
+        Some(CompositeGlyphScale::Matrix(m)) => {
+            assert!(m[0][0].raw_value() as u16 == be16(&buf, 20) && m[0][1].raw_value() as u16 == be16(&buf, 22), "xscale, scale01");
+            assert!(m[1][0].raw_value() as u16 == be16(&buf, 24) && m[1][1].raw_value() as u16 == be16(&buf, 26), "scale10, yscale");
+        }
+        _ => assert!(false, "2x2 transform expected"),
+    }
     if i0 || i1 {
-        assert!(glyph.instructions.len() == 2 && glyph.instructions[0] == buf[24] && glyph.instructions[1] == buf[25], "instructions read");
+        assert!(glyph.instructions.len() == 2 && glyph.instructions[0] == buf[30] && glyph.instructions[1] == buf[31], "instructions read");
     } else {
         assert!(glyph.instructions.is_empty());
     }
